@@ -89,7 +89,12 @@ func vhSymView(n, nadv, neps, focus int) *vhView {
 		if focus&vhFExclude != 0 {
 			lk = vr.PickString(v1.LabelNodeExcludeBalancers, "unrelated-label")
 		}
-		node.Labels[lk] = ""
+		// the label excludes the node by its presence, whatever its value
+		lv := ""
+		if focus&vhFExclude != 0 {
+			lv = vr.PickString("", "true", "false")
+		}
+		node.Labels[lk] = lv
 		v.nodes[key] = node
 		v.known = append(v.known, known)
 		v.unavail = append(v.unavail, st == v1.ConditionTrue)
